@@ -146,6 +146,7 @@ def asm(source, march, debug=False):
     ostream = BinaryOutputStream(obj)
     ostream.select_section("code")
     try:
+        assembler.begin_object()
         assembler.prepare()
         assembler.assemble(source, ostream, diag, debug=debug)
         assembler.flush()
@@ -306,6 +307,10 @@ def ir_to_object(
     if outstream:
         sub_streams.append(outstream)
     output_stream = MasterOutputStream(sub_streams)
+
+    # Inline assembly is assembled into this object file:
+    if hasattr(march, "assembler"):
+        march.assembler.begin_object()
 
     for ir_module in ir_modules:
         ir_to_stream(
